@@ -9,9 +9,12 @@ import (
 	"fmt"
 	"io"
 	"testing"
+	"time"
+	_ "time/tzdata"
 	"unsafe"
 
 	"github.com/dapr/kit/byteslicepool"
+	"github.com/dapr/kit/cron"
 	"github.com/dapr/kit/logger"
 	encv1 "github.com/dapr/kit/schemes/enc/v1"
 
@@ -268,6 +271,15 @@ func mkPools(rounds int) *mc.Exec {
 					if len(b) != 0 {
 						errs = append(errs, "Get returned a non-empty slice")
 					}
+					// a recycled slice grown within its capacity must not show a
+					// previous user's bytes
+					grown := pools[i].Resize(b, 6)
+					for _, c := range grown[:6] {
+						if c != 0 {
+							errs = append(errs, fmt.Sprintf("pool %d handed out a slice that still carries a previous user's bytes (%#x) within its capacity", i, c))
+							break
+						}
+					}
 					b = append(b, byte(0xA0+i), byte(r))
 					mc.Yield()
 					if b[0] != byte(0xA0+i) || b[1] != byte(r) {
@@ -285,6 +297,66 @@ func mkPools(rounds int) *mc.Exec {
 		}
 		if len(errs) > 0 {
 			return errors.New(errs[0])
+		}
+		return nil
+	}
+	return &mc.Exec{Body: body, Check: check}
+}
+
+// ---- cron parsers (default parser and callers' own) ----
+
+type cronJob struct {
+	spec    string
+	seconds bool
+}
+
+func cronNext(j cronJob) (string, error) {
+	var (
+		sc  cron.Schedule
+		err error
+	)
+	if j.seconds {
+		sc, err = cron.NewParser(cron.Second | cron.Minute | cron.Hour | cron.Dom | cron.Month | cron.Dow | cron.Descriptor).Parse(j.spec)
+	} else {
+		sc, err = cron.ParseStandard(j.spec)
+	}
+	if err != nil {
+		return "", err
+	}
+	mc.Yield() // the other parser runs while this schedule is in use
+	t := time.Date(2024, 3, 9, 12, 0, 0, 0, time.UTC)
+	out := ""
+	for i := 0; i < 3; i++ {
+		t = sc.Next(t)
+		out += t.UTC().Format(time.RFC3339) + " "
+	}
+	return out, nil
+}
+
+var cronSolo = map[cronJob]string{}
+
+func mkCron(jobs []cronJob) *mc.Exec {
+	res := make([]string, len(jobs))
+	body := func() {
+		for i, j := range jobs {
+			i, j := i, j
+			mc.GoNamed(fmt.Sprintf("parser%d", i), func() {
+				r, err := cronNext(j)
+				if err != nil {
+					r = "error: " + err.Error()
+				}
+				res[i] = r
+			})
+		}
+	}
+	check := func(e *mc.End) error {
+		if !e.AllFinished() {
+			return fmt.Errorf("deadlock: %v", e.Parked())
+		}
+		for i, j := range jobs {
+			if res[i] != cronSolo[j] {
+				return fmt.Errorf("parsing %q next to an independent parse gave activations %q, alone it gives %q", j.spec, res[i], cronSolo[j])
+			}
 		}
 		return nil
 	}
@@ -344,6 +416,30 @@ func scenarios() []hx.Scenario {
 			Opts: mc.Options{Bound: 3, TieCost: 1},
 			Mk:   func() *mc.Exec { return mkLogger(names) },
 		})
+	}
+	cjobs := []cronJob{
+		{"TZ=Asia/Tokyo @daily", false}, {"TZ=America/New_York @daily", false}, {"CRON_TZ=Europe/London @hourly", true},
+		{"TZ=Asia/Tokyo 30 4 * * *", false}, {"@weekly", false}, {"TZ=Pacific/Auckland @weekly", true}, {"@every 90m", false},
+	}
+	for _, j := range cjobs {
+		r, err := cronNext(j) // alone (outside an execution the runtime is idle)
+		if err != nil {
+			panic(err)
+		}
+		cronSolo[j] = r
+	}
+	for i, a := range cjobs {
+		for k, b := range cjobs {
+			if k < i {
+				continue
+			}
+			pair := []cronJob{a, b}
+			out = append(out, hx.Scenario{
+				Name: fmt.Sprintf("cron %q || %q", a.spec, b.spec), Class: "cron-parsers",
+				Opts: mc.Options{Bound: 2, TieCost: 1},
+				Mk:   func() *mc.Exec { return mkCron(pair) },
+			})
+		}
 	}
 	for _, r := range []int{1, 2, 3} {
 		r := r
